@@ -12,6 +12,7 @@ from . import c03
 AGENT = c03.AGENT
 
 EXPLANATION = (
+    "[Method] R1/R3/R4 by abstract interpretation (Policies::evaluate in iterator or loop form: no early exit; with_connection restores the connection on every path; compare yields nothing and does not panic for a failed evaluation); R2 from MIR incl. dependency MIR. "
     "C15/R1: Policies<Candidate>::evaluate evaluates each candidate inside Iterator::map/collect with no early exit, and "
     "Candidate::evaluate returns a plain Evaluated, converting the evaluator's Err with .ok(): an evaluation that *returns* an error "
     "affects only its own entry. C15/R2 (PANIC): no explicit panic (unimplemented!/todo!/panic!/unreachable!/unwrap/expect) in any "
